@@ -43,6 +43,8 @@ def gen_case(rng, tier):
             else:
                 ops.append((i, ("batch", HX.nest_some(rng, [HX.gen_write(rng, models[i].keys()) for _ in range(rng.randint(1, 3))], 0.3), None)))
             ops.append((i, ("budget", None)))
+            if rng.random() < 0.6:
+                ops.append((i, ops[-2][1]))      # the caller RETRIES the operation that the failing write aborted, on the same object
             # the model mapping is reconstructed from the observed outcome by the oracle
         else:
             ops.append((i, ("state",)))
